@@ -28,6 +28,7 @@ type Plan struct {
 	After    []int       `json:"after"`              // yields after adding children, per item
 	WaitFor  []int       `json:"wait_for,omitempty"` // per item: after adding its children, f blocks until this child (index into children) has started; -1 none
 	NilItem  int         `json:"nil_item,omitempty"` // 1+index of the item that is represented by an untyped nil (0: none)
+	Sibling  int         `json:"sibling,omitempty"`   // >0: an earlier Work runs to completion first, then a second Work with this many items of its own runs beside the main one
 	SlowItem int         `json:"slow_item,omitempty"` // 1+index of an item whose f takes SlowMs of simulated time (it sleeps on the fake clock)
 	SlowMs   int         `json:"slow_ms,omitempty"`
 	Sched    simrt.Sched `json:"sched"`
@@ -104,6 +105,10 @@ func genPlan(t *rapid.T, tier string) any {
 		// far more workers than items (n is the caller's choice; a build machine with hundreds of cores passes hundreds)
 		p.Workers = rapid.SampledFrom([]int{64, 255, 256, 257, 300}).Draw(t, "hugeworkers")
 	}
+	if rapid.IntRange(0, 7).Draw(t, "sibling") == 0 {
+		// Work values are independent of each other: one used up earlier, and another in use at the same time
+		p.Sibling = rapid.IntRange(1, 6).Draw(t, "siblingitems")
+	}
 	if rapid.IntRange(0, 5).Draw(t, "slow") == 0 {
 		// one call of f takes long: however long, Do waits for it and nothing else changes
 		p.SlowItem = 1 + rapid.IntRange(0, n-1).Draw(t, "slowitem")
@@ -162,6 +167,7 @@ func run(t *testing.T, plan any, keep bool) *simcheck.Outcome {
 	inflight, maxInflight := 0, 0
 	returned := false
 	slept := 0
+	siblingCalls := map[int]int{}
 
 	// 50x the longest fault-free run seen for these sizes (about 400 decisions)
 	// with a sleeping f nothing may be eligible for a while: the scheduler then idles on the fake clock
@@ -175,6 +181,36 @@ func run(t *testing.T, plan any, keep bool) *simcheck.Outcome {
 			}
 			return i
 		}
+		siblingDone := true
+		if p.Sibling > 0 {
+			var w0 par.Work
+			for i := 0; i < 3; i++ {
+				w0.Add(9000 + i)
+			}
+			w0.Do(2, func(item any) { simrt.Yield("f0") })
+			siblingDone = false
+			s.Go("sibling-work", 0, func() {
+				defer func() { siblingDone = true }()
+				var ws par.Work
+				for i := 0; i < p.Sibling; i++ {
+					ws.Add(5000 + i)
+				}
+				ws.Do(2, func(item any) {
+					k, ok := item.(int)
+					if !ok || k < 5000 || k >= 5000+p.Sibling {
+						out.Violate("foreign-item", "the second Work's f was handed %v, which was added to another Work", item)
+						return
+					}
+					siblingCalls[k]++
+					simrt.Yield("fs")
+				})
+				for i := 0; i < p.Sibling; i++ {
+					if siblingCalls[5000+i] != 1 {
+						out.Violate("double-run", "the second Work ran its item %d %d times", 5000+i, siblingCalls[5000+i])
+					}
+				}
+			})
+		}
 		for _, i := range p.Initial {
 			w.Add(key(i))
 		}
@@ -182,6 +218,10 @@ func run(t *testing.T, plan any, keep bool) *simcheck.Outcome {
 			i := p.NilItem - 1
 			if item != nil {
 				i = item.(int)
+			}
+			if i >= 5000 {
+				out.Violate("foreign-item", "f was handed item %d, which was added to another Work", i)
+				return
 			}
 			if returned {
 				out.Violate("call-after-return", "f(%d) called after Do returned", i)
@@ -238,6 +278,7 @@ func run(t *testing.T, plan any, keep bool) *simcheck.Outcome {
 		if len(missing) > 0 {
 			out.Violate("premature-return", "Do returned but items %v were added and never processed", missing)
 		}
+		simrt.Block("join-sibling", func() bool { return siblingDone })
 	})
 	out.TraceHash, out.Steps, out.SimTime, out.Trace = rep.TraceHash, rep.Steps, rep.SimTime, rep.Trace
 	simcheck.Panics(out, rep.Panics)
@@ -276,7 +317,7 @@ func run(t *testing.T, plan any, keep bool) *simcheck.Outcome {
 var harness = &simcheck.Harness{
 	Property: "C09",
 	Level:    "exploration",
-	Rule: "rapid draws a worker count (1-4, rarely 64-300), an item graph (children lists with duplicates, self loops and cycles; a quarter of the plans are wide: 1-2 workers, 12-40 items, long initial backlog, fan-out up to 24; a tenth are bursts: 66-140 items queued at one time, before Do or by the first call of f, then drained; one item may be the untyped nil; one call of f may take 1 ms to 61 s of simulated time), the initial adds, " +
+	Rule: "rapid draws a worker count (1-4, rarely 64-300), an item graph (children lists with duplicates, self loops and cycles; a quarter of the plans are wide: 1-2 workers, 12-40 items, long initial backlog, fan-out up to 24; a tenth are bursts: 66-140 items queued at one time, before Do or by the first call of f, then drained; one item may be the untyped nil; one call of f may take 1 ms to 61 s of simulated time; an eighth of the plans use up another Work first and run a second Work beside the main one), the initial adds, " +
 		"yield counts inside f, rendezvous points (a call of f waits until a child it added has started; at most n-1 items may wait), and a schedule (pct with change points / uniform random / sticky); a case is non-trivial when at least two " +
 		"different runner tasks executed f, and distinct by the hash of its full decision trace (task, seam) sequence",
 	Gen:     genPlan,
